@@ -48,7 +48,7 @@ Expand(w) ==
     [j \in 1..Len(U) |-> Item("field", s, s.fields[U[j]], v.rec[U[j]], <<>>)]
     \o (IF s.flex THEN
           <<Item("opensec", s, NoF, NullV, <<>>)>>
-          \o FlattenSeq([j \in 1..Len(present) |->
+          \o Flatten([j \in 1..Len(present) |->
                 <<Item("openfld", s, s.fields[present[j]], NullV, <<>>),
                   Item("field", s, s.fields[present[j]], v.rec[present[j]], <<1>>),    \* d = <<1>>: tagged position
                   Item("closefld", s, s.fields[present[j]], NullV, <<>>)>>])
